@@ -336,6 +336,18 @@ Definition col_norms_sym (A : csc) : list T :=
                         (fst e) (fun t => maxabs t (snd e))) (snd jc) s)
     (indexed (cols A)) (repeat (zero O) (nc A)).
 
+(** the *_no_reset variants: the running maxima start from the caller's vector *)
+Definition col_norms_from (A : csc) (s : list T) : list T :=
+  map (fun sc => fold_left maxabs (map snd (snd sc)) (fst sc)) (combine s (cols A)).
+Definition row_norms_from (A : csc) (s : list T) : list T :=
+  fold_left (fun s e => upd s (fst e) (fun t => maxabs t (snd e))) (concat (cols A)) s.
+Definition col_norms_sym_from (A : csc) (s : list T) : list T :=
+  fold_left
+    (fun s jc => fold_left (fun s e =>
+                    upd (upd s (fst jc) (fun t => maxabs t (snd e)))
+                        (fst e) (fun t => maxabs t (snd e))) (snd jc) s)
+    (indexed (cols A)) s.
+
 (** dense view as a list of rows, for printing and for comparison *)
 Definition to_dense (A : csc) : list (list T) :=
   map (fun i => map (fun j => get A i j) (seq 0 (nc A))) (seq 0 (nr A)).
